@@ -62,7 +62,7 @@ structure SentRec where
   tag : Pos             -- the position the answering thinker had been started on
 deriving Repr, DecidableEq, Inhabited
 
-structure Cfg where
+structure Conf where
   basis : Array W
   color : Color         -- `g.Color`; `.none` for `ObserveGame`
   gameStr : String      -- `g.GameStr`
@@ -118,7 +118,7 @@ def seconds (v : Int) : Int := wrap64 (wrap64 v * 1000000000)
 def srvCur (s : St) : Option Pos := s.srvPos.head?
 
 /-- the server appends `m` to its history when `m` is legal in its current position -/
-def srvPush (cfg : Cfg) (s : St) (m : Move) : St :=
+def srvPush (cfg : Conf) (s : St) (m : Move) : St :=
   match s.srvPos with
   | [] => s
   | q :: _ =>
@@ -127,7 +127,7 @@ def srvPush (cfg : Cfg) (s : St) (m : Move) : St :=
     | .error _ => s
 
 /-- a move transmitted by the bot is accepted when it is the bot's turn on the server and the move is legal there -/
-def srvAccept (cfg : Cfg) (s : St) (m : Move) : St :=
+def srvAccept (cfg : Conf) (s : St) (m : Move) : St :=
   match s.srvPos with
   | [] => s
   | q :: _ => if q.toMove = cfg.color then srvPush cfg s m else s
@@ -144,7 +144,7 @@ def St.crash (s : St) (e : Err) : St :=
   { s with status := .crashed e, cur := { s.cur with cancelled := true } }
 
 /-- the head of `handleMove`: channel, context and thinker goroutine of a new invocation -/
-def spawn (cfg : Cfg) (s : St) : St :=
+def spawn (cfg : Conf) (s : St) : St :=
   { s with
     cur := { pos := s.p, mine := s.mine, theirs := s.theirs, cancelled := false,
              st := if s.p.gameOver.1 then .idle else .waiting, buf := none }
@@ -152,7 +152,7 @@ def spawn (cfg : Cfg) (s : St) : St :=
     timeout := false }
 
 /-- `return false`: deferred `moveCancel()`, then `PlayGame` calls `handleMove` again -/
-def retFalse (cfg : Cfg) (s : St) : St :=
+def retFalse (cfg : Conf) (s : St) : St :=
   spawn cfg { s with old := s.old ++ [{ s.cur with cancelled := true }] }
 
 /-- `return true` -/
@@ -160,7 +160,7 @@ def retTrue (s : St) : St :=
   { s with status := .ended, cur := { s.cur with cancelled := true } }
 
 /-- `case "P", "M":` -/
-def onServerMove (cfg : Cfg) (s : St) (parsed : Option Move) : St :=
+def onServerMove (cfg : Conf) (s : St) (parsed : Option Move) : St :=
   match parsed with
   | none => s.crash (.panic "ParseServer error")
   | some m =>
@@ -172,7 +172,7 @@ def onServerMove (cfg : Cfg) (s : St) (parsed : Option Move) : St :=
                listening := if cfg.fixed then false else s.listening }
 
 /-- `case "Time":` -/
-def onTime (cfg : Cfg) (s : St) (args : List String) : St :=
+def onTime (cfg : Conf) (s : St) (args : List String) : St :=
   match args with
   | w :: b :: _ =>
     let w := seconds (atoi w)
@@ -188,20 +188,22 @@ def onRequestUndo (s : St) (accept : Bool) : St :=
   else s
 
 /-- `case "Undo":` three slice expressions, each of which can panic -/
-def onUndo (cfg : Cfg) (s : St) : St :=
+def onUndo (cfg : Conf) (s : St) : St :=
   let s := srvPop s
   match s.positions with
   | [] => s.crash (.panic "Positions[:len-1]")
   | _ :: ps =>
+    let s := { s with positions := ps }
     match s.moves with
     | [] => s.crash (.panic "Moves[:len-1]")
     | _ :: ms =>
+      let s := { s with moves := ms }
       match ps with
       | [] => s.crash (.panic "Positions[len-1]")
-      | q :: _ => retFalse cfg { s with positions := ps, moves := ms, p := q }
+      | q :: _ => retFalse cfg { s with p := q }
 
 /-- `switch bits[1]` -/
-def onGameLine (cfg : Cfg) (s : St) (rest : List String) (parsed : Option Move) (accept : Bool) : St :=
+def onGameLine (cfg : Conf) (s : St) (rest : List String) (parsed : Option Move) (accept : Bool) : St :=
   match rest with
   | [] => s.crash (.panic "bits[1]")
   | b1 :: args =>
@@ -218,7 +220,7 @@ def onGameLine (cfg : Cfg) (s : St) (rest : List String) (parsed : Option Move) 
 
 /-- `switch bits[0]`: lines of this game and (there is no `continue` in that arm) `Tell` lines go on to
 `switch bits[1]`; `Shout`, `ShoutRoom` and everything else are skipped -/
-def onLine (cfg : Cfg) (s : St) (bits : List String) (parsed : Option Move) (accept : Bool) : St :=
+def onLine (cfg : Conf) (s : St) (bits : List String) (parsed : Option Move) (accept : Bool) : St :=
   match bits with
   | [] => s
   | b0 :: rest =>
@@ -227,7 +229,7 @@ def onLine (cfg : Cfg) (s : St) (bits : List String) (parsed : Option Move) (acc
     else s
 
 /-- `case move := <-moves:` -/
-def onAnswer (cfg : Cfg) (s : St) (m : Move) : St :=
+def onAnswer (cfg : Conf) (s : St) (m : Move) : St :=
   match s.p.apply cfg.basis m with
   | .error (.illegal _) => retFalse cfg s          -- "ai returned bad move"
   | .error e => s.crash e
@@ -257,7 +259,7 @@ def grant (s : St) (k : Nat) : St :=
   else if k = s.old.length then { s with cur := s.cur.enter }
   else s
 
-def aiReturns (cfg : Cfg) (s : St) (k : Nat) (m : Move) : St :=
+def aiReturns (cfg : Conf) (s : St) (k : Nat) (m : Move) : St :=
   if k < s.old.length then { s with old := modAt s.old k (·.leave m) }
   else if k = s.old.length then
     if s.cur.st = .running then
@@ -269,17 +271,17 @@ def aiReturns (cfg : Cfg) (s : St) (k : Nat) (m : Move) : St :=
 
 /-! ### the transition system -/
 
-def step (cfg : Cfg) (s : St) : Ev → St
+def step (cfg : Conf) (s : St) : Ev → St
   | .deliver bits parsed accept => if s.status = .running then onLine cfg s bits parsed accept else s
   | .close => if s.status = .running then retTrue s else s
   | .timerFires => if s.status = .running ∧ s.timeout = true then retFalse cfg s else s
   | .grant k => grant s k
   | .aiReturns k m => aiReturns cfg s k m
 
-def run (cfg : Cfg) (s : St) (evs : List Ev) : St := evs.foldl (step cfg) s
+def run (cfg : Conf) (s : St) (evs : List Ev) : St := evs.foldl (step cfg) s
 
 /-- `PlayGame`/`ObserveGame` up to the first `select`: `tak.New`, `Positions = [p]`, clocks, first invocation -/
-def start (cfg : Cfg) (size : Nat) (secs : Int) : St :=
+def start (cfg : Conf) (size : Nat) (secs : Int) : St :=
   match Pos.new { size := size, pieces := 0, capstones := 0, blackWinsTies := false } with
   | .error e => { (default : St) with status := .crashed e }
   | .ok p0 =>
@@ -312,14 +314,14 @@ def settleEvs (s : St) : List Ev :=
   dead.flatMap (fun (_, k) => [Ev.grant k, Ev.aiReturns k zeroMove]) ++
     (match live with | some (_, k) => [Ev.grant k] | none => [])
 
-def settle (cfg : Cfg) (s : St) : St := run cfg s (settleEvs s)
+def settle (cfg : Conf) (s : St) : St := run cfg s (settleEvs s)
 
 /-- one op of the harness: an event, then the spontaneous steps -/
-def tieStep (cfg : Cfg) (s : St) (e : Ev) : St := settle cfg (step cfg s e)
+def tieStep (cfg : Conf) (s : St) (e : Ev) : St := settle cfg (step cfg s e)
 
 /-- what the driver keeps between ops: `noGame` = `tak.New` panicked before `Bot.NewGame` was called -/
 structure Session where
-  cfg : Cfg
+  cfg : Conf
   st : St
   noGame : Bool := false
 
